@@ -36,6 +36,14 @@ Theorem c05_one_worker : forall fx cbk cls sch,
 Proof. exact one_worker. Qed.
 Print Assumptions c05_one_worker.
 
+(* the counter is not constantly 0: after the hand-over in the deferred block
+   two start() goroutines have been created, one exists *)
+Example c05_one_worker_handover :
+  let s := run true (init None [CEnq 0; CDone0; CClose0])
+               [C 0; W 0; W 0; W 0; W 0; C 1; C 2; W 0] in
+  workers s = [WExit; WStart] /\ live s = 1 /\ busy s <> None.
+Proof. vm_compute. repeat split; discriminate. Qed.
+
 (* no op runs twice, and ops run in the order in which they were accepted,
    without gaps *)
 Theorem c05_order_once : forall fx cbk cls sch,
